@@ -18,6 +18,7 @@ from ngo.dependency import DomainPredicates
 from ngo.utils.ast import (
     LOC,
     Predicate,
+    collect_ast,
     collect_binding_information_body,
     global_vars_inside_body,
     replace_assignments,
@@ -83,9 +84,18 @@ class LiteralCollector:
 
     def _add_occurences_from_body(self, body: Iterable[AST], index: int) -> None:
         """add all combinations of self.size from literals from the body"""
+        body = list(body)
+        rule_globals = global_vars_inside_body(body)
         for original_subset in combinations(body, self.size):
-            _, unbound = collect_binding_information_body(original_subset)
-            if not unbound:
+            bound, unbound = collect_binding_information_body(original_subset)
+            # a variable of the rule that the subset only mentions inside an aggregate would become local to it
+            captured = any(
+                var in rule_globals and var not in bound
+                for lit in original_subset
+                if lit.ast_type == ASTType.Literal and lit.atom.ast_type == ASTType.BodyAggregate
+                for var in collect_ast(lit, "Variable")
+            )
+            if not unbound and not captured:
                 new_subset, oldvars2newvars = anonymize_variables(original_subset)
                 newvars2oldvars = {v: k for k, v in oldvars2newvars.items()}
                 self.occurences[tuple(new_subset)].append(
